@@ -312,8 +312,67 @@ pub fn gen_uuid(r: &mut Rng, tier: &str, emit: &mut dyn FnMut(String)) {
             e(std::str::from_utf8(&s).unwrap());
         }
     }
+    // two-position malformations that keep the length, the number of dashes and the number of hex
+    // digits: a separator moved to any other position (4 x 32), every permutation of the five group
+    // lengths, an empty group, adjacent dashes
+    for d in [8usize, 13, 18, 23] {
+        for p in 0..36 {
+            if p == 8 || p == 13 || p == 18 || p == 23 { continue; }
+            let mut s = base.as_bytes().to_vec();
+            s[d] = s[p];
+            s[p] = b'-';
+            e(std::str::from_utf8(&s).unwrap());
+        }
+    }
+    {
+        let digits: Vec<u8> = base.bytes().filter(|c| *c != b'-').collect();
+        let lens = [8usize, 4, 4, 4, 12];
+        let mut perm = [0usize, 1, 2, 3, 4];
+        // all 120 orders of the group lengths (duplicates among the three 4s are harmless)
+        fn heap(k: usize, a: &mut [usize; 5], out: &mut Vec<[usize; 5]>) {
+            if k == 1 { out.push(*a); return; }
+            for i in 0..k {
+                heap(k - 1, a, out);
+                if k % 2 == 0 { a.swap(i, k - 1); } else { a.swap(0, k - 1); }
+            }
+        }
+        let mut perms = Vec::new();
+        heap(5, &mut perm, &mut perms);
+        for p in perms {
+            let mut s = Vec::new();
+            let mut at = 0;
+            for (gi, g) in p.iter().enumerate() {
+                if gi > 0 { s.push(b'-'); }
+                s.extend_from_slice(&digits[at..at + lens[*g]]);
+                at += lens[*g];
+            }
+            e(std::str::from_utf8(&s).unwrap());
+        }
+        for groups in [[0usize, 12, 4, 4, 12], [8, 0, 8, 4, 12], [8, 4, 4, 0, 16], [16, 4, 4, 4, 4], [8, 4, 4, 16, 0],
+                       [7, 5, 4, 4, 12], [9, 3, 4, 4, 12], [8, 4, 4, 5, 11], [8, 4, 4, 3, 13], [8, 5, 3, 4, 12]] {
+            let mut s = Vec::new();
+            let mut at = 0;
+            for (gi, g) in groups.iter().enumerate() {
+                if gi > 0 { s.push(b'-'); }
+                s.extend_from_slice(&digits[at..at + g]);
+                at += g;
+            }
+            e(std::str::from_utf8(&s).unwrap());
+        }
+    }
     let nrand = if tier == "thorough" { 300_000 } else { 20_000 };
-    for _ in 0..nrand {
+    for k in 0..nrand {
+        if k % 40 == 0 {
+            // random digits, separators at four random positions (length, dash and digit counts kept)
+            let mut s: Vec<u8> = (0..36).map(|_| *r.pick(HEXD)).collect();
+            let mut placed = 0;
+            while placed < 4 {
+                let i = r.below(36) as usize;
+                if s[i] != b'-' { s[i] = b'-'; placed += 1; }
+            }
+            e(std::str::from_utf8(&s).unwrap());
+            continue;
+        }
         let mut s = Vec::new();
         for i in 0..36 {
             if i == 8 || i == 13 || i == 18 || i == 23 { s.push(b'-'); } else { s.push(*r.pick(HEXD)); }
